@@ -1,16 +1,29 @@
 #!/usr/bin/env python3
 """Sensitivity self-test: applies every kept seeded change (seeded/<id>/patch.diff) to a scratch copy of /repo
 (never /repo itself), runs the check of the property it breaks against that copy (VERIF_REPO) and expects exit 1
-with a VIOLATION line.  Not referenced by MANIFEST.json.  usage: lib/selftest.py [id ...]"""
+with a VIOLATION line.  Not referenced by MANIFEST.json.  usage: lib/selftest.py [-jN] [id ...]"""
 import json, os, shutil, subprocess, sys, tempfile, time
 
 V = os.path.dirname(os.path.dirname(os.path.abspath(__file__)))
 
 
 def main():
-    ids = sys.argv[1:] or sorted(os.listdir(os.path.join(V, "seeded")))
+    import concurrent.futures as cf
+    args = sys.argv[1:]
+    jobs = 1
+    if args and args[0].startswith("-j"):
+        jobs = int(args[0][2:] or 2)
+        args = args[1:]
+    ids = args or sorted(os.listdir(os.path.join(V, "seeded")))
+    with cf.ThreadPoolExecutor(max_workers=jobs) as ex:
+        bad = sum(ex.map(one, ids))
+    print("not caught: %d of %d" % (bad, len(ids)))
+    return 1 if bad else 0
+
+
+def one(sid):
     bad = 0
-    for sid in ids:
+    for sid in [sid]:
         d = os.path.join(V, "seeded", sid)
         meta = json.load(open(os.path.join(d, "meta.json")))
         prop = meta["property"]
@@ -33,8 +46,7 @@ def main():
                 bad += 0 if ok else 1
         finally:
             shutil.rmtree(tmp, ignore_errors=True)
-    print("not caught: %d of %d" % (bad, len(ids)))
-    return 1 if bad else 0
+    return bad
 
 
 if __name__ == "__main__":
